@@ -489,6 +489,9 @@ def one(res, W, stream, call, cuts, tplan, head_cuts, tag, eagain=None, pauses=F
     script, pred, model = _pred_cache[key]
     segs = None
     ntimeouts = 0
+    interrupts = bool(tplan) and not tls and (len(stream) + len(cuts or ()) + sum(tplan)) % 4 == 0
+    if interrupts:
+        res.count("runs_with_interruptions_instead_of_timeouts")
     if head_cuts is None:
         cl = cuts or []
         chunks = [stream[a:b] for a, b in zip([0] + cl, cl + [len(stream)])]
@@ -496,7 +499,9 @@ def one(res, W, stream, call, cuts, tplan, head_cuts, tag, eagain=None, pauses=F
         for i, ch in enumerate(chunks):
             if tplan and i in tplan:
                 for _ in range(tplan[i]):
-                    segs.append((net.TIMEOUT, None))
+                    # a receive timeout - or, in a quarter of the runs, an interruption that is not an Exception (KeyboardInterrupt
+                    # family): either way the application calls again and nothing may be lost
+                    segs.append(("interrupt", None) if interrupts else (net.TIMEOUT, None))
                     ntimeouts += 1
             if eagain and i == eagain[0]:
                 segs.append(("eagain", None))
